@@ -34,7 +34,8 @@ BOUNDARY = ["", "0", "1", "-1", "2", "-", "00", "-0", "+7", " 8", "8 ", "1_0", "
             "12345678-1234-5678-1234-567812345678", "{12345678-1234-5678-1234-567812345678}",
             "urn:uuid:12345678-1234-5678-1234-567812345678", "12345678123456781234567812345678",
             "12345678-1234-5678-1234-56781234567", "12345678-1234-5678-1234-56781234567g", "ABCDEFAB-CDEF-ABCD-EFAB-CDEFABCDEFAB",
-            "4294967296", "-9999999999999999999999", "99999999999999999999999999", "0x10", "1.0", "1e400", "#x", " ", "  "]
+            "4294967296", "-9999999999999999999999", "99999999999999999999999999", "0x10", "1.0", "1e400", "#x", " ", "  ",
+            "12%", "%s", "5%d", "100%(SNP)s", "%", "%%", "{0}", "{x}", "\\", "'", "\"", "a'b", "None;None"]
 ADVERSARIAL = ["é", "٣", "１", "yeſ", "K", "a\x0bb", "\x1c5", "5\x1f", " " + "5", "1 ", "\x00", "a\x00b",
                "ßes", "\U0001F600", "À", "true", "ı", "İ"]
 
